@@ -7,7 +7,7 @@
 (* deviation is a predicate on the event.                                        *)
 EXTENDS Kernels
 
-KnownIds == {"C14-KF1", "C14-KF2", "C14-KF3", "C14-KF4", "C14-KF5", "C14-KF6", "C14-KF7"}
+KnownIds == {"C14-KF1", "C14-KF2", "C14-KF3", "C14-KF4", "C14-KF5", "C14-KF6", "C14-KF7", "C14-KF8"}
 
 (* C14-KF1: io::simd_memory::search::sse42_strstr_short loads 16 bytes at every offset     *)
 (* although fewer than 16 bytes of the haystack remain: with the haystack ending at a page   *)
@@ -80,6 +80,69 @@ KF6(e, subj) == G6(e, subj) /\ e.r = Tail(PositionsOf(e.h, e.c))
 G7(e, subj) == UsesRankSelect(e, subj) /\ e.op = "histogram" /\ Len(e.h) >= 1
 KF7(e, subj) == G7(e, subj) /\ e.r = [v \in 1..256 |-> CountByte(e.h, 0)]
 
+(* C14-KF8: string::bmi2_string_ops::extract_utf8_chars_bmi2 / utf8_to_utf16_bmi2 (inputs of  *)
+(* 8 bytes or more): decode_utf8_char_bmi2 looks only at the lead byte (no check of the        *)
+(* continuation bytes, overlong forms, surrogates, U+10FFFF) and compares the ABSOLUTE         *)
+(* position with the 4-byte window, so a multi-byte character is refused unless it starts at   *)
+(* position <= 2 / 1 / 0; the last < 4 bytes go through the standard library.  The algorithm   *)
+(* as written, i = 0-based position, result <<ok, code points>>:                               *)
+BmiFail == <<FALSE, <<>>>>
+BmiCons(cp, res) == IF res[1] THEN <<TRUE, <<cp>> \o res[2]>> ELSE res
+RECURSIVE BmiDecodeFrom(_, _)
+BmiDecodeFrom(s, i) ==
+    IF i >= Len(s) THEN <<TRUE, <<>>>>
+    ELSE IF i + 4 <= Len(s)
+    THEN LET f == s[i + 1]
+         IN  IF f <= 127 THEN BmiCons(f, BmiDecodeFrom(s, i + 1))
+             ELSE IF f >= 192 /\ f <= 223
+             THEN (IF i + 1 < 4
+                   THEN BmiCons((f % 32) * 64 + (s[i + 2] % 64), BmiDecodeFrom(s, i + 2))
+                   ELSE BmiFail)
+             ELSE IF f >= 224 /\ f <= 239
+             THEN (IF i + 2 < 4
+                   THEN BmiCons((f % 16) * 4096 + (s[i + 2] % 64) * 64 + (s[i + 3] % 64), BmiDecodeFrom(s, i + 3))
+                   ELSE BmiFail)
+             ELSE IF f >= 240 /\ f <= 247
+             THEN (IF i + 3 < 4
+                   THEN BmiCons((f % 8) * 262144 + (s[i + 2] % 64) * 4096 + (s[i + 3] % 64) * 64 + (s[i + 4] % 64),
+                                BmiDecodeFrom(s, i + 4))
+                   ELSE BmiFail)
+             ELSE BmiFail
+    ELSE LET rem == SubSeq(s, i + 1, Len(s))
+         IN  IF Utf8Valid(rem) THEN <<TRUE, Utf8Decode(rem)>> ELSE BmiFail
+(* the number of code points the same algorithm delivers (-1: Err), without building them *)
+RECURSIVE BmiCountFrom(_, _)
+BmiCountFrom(s, i) ==
+    IF i >= Len(s) THEN 0
+    ELSE IF i + 4 <= Len(s)
+    THEN LET f == s[i + 1]
+             k == IF f <= 127 THEN 1
+                  ELSE IF f >= 192 /\ f <= 223 /\ i + 1 < 4 THEN 2
+                  ELSE IF f >= 224 /\ f <= 239 /\ i + 2 < 4 THEN 3
+                  ELSE IF f >= 240 /\ f <= 247 /\ i + 3 < 4 THEN 4
+                  ELSE 0
+             r == BmiCountFrom(s, i + k)
+         IN  IF k = 0 THEN -1 ELSE IF r < 0 THEN -1 ELSE r + 1
+    ELSE LET rem == SubSeq(s, i + 1, Len(s))
+         IN  IF Utf8Valid(rem) THEN Utf8CharCount(rem) ELSE -1
+BmiCountOf(s) == BmiCountFrom(s, 0)
+G8(e, subj) ==
+    \/ /\ subj.subject = "bmi2:extract_utf8_chars_bmi2"
+       /\ \/ e.op = "utf8_decode" /\ Len(e.s) >= 8
+          \/ e.op = "utf8count_batch" /\ Len(e.frame) >= 8
+    \/ subj.subject = "bmi2:utf8_to_utf16_bmi2" /\ e.op = "utf16" /\ Len(e.s) >= 8
+KF8(e, subj) ==
+    /\ G8(e, subj)
+    /\ CASE e.op = "utf8_decode" ->
+              LET d == BmiDecodeFrom(e.s, 0) IN e.ok = d[1] /\ e.r = d[2]
+         [] e.op = "utf16" ->
+              LET d == BmiDecodeFrom(e.s, 0) IN e.ok = d[1] /\ e.r = Utf16Enc(d[2])
+         [] e.op = "utf8count_batch" ->
+              LET cnt == Pow(Len(e.alpha), e.k)
+              IN  /\ Len(e.r) = cnt
+                  /\ \A idx \in 0..(cnt - 1) :
+                        e.r[idx + 1] = BmiCountOf(Embed(e.frame, e.off, NthString(e.alpha, e.k, idx)))
+
 (* guard (state predicate) and action of each deviation.  In KF mode a deviation whose   *)
 (* guard holds REPLACES the contract action for that event.                               *)
 DevApplies(id, e, subj) ==
@@ -90,6 +153,7 @@ DevApplies(id, e, subj) ==
     \/ id = "C14-KF5" /\ G5(e, subj)
     \/ id = "C14-KF6" /\ G6(e, subj)
     \/ id = "C14-KF7" /\ G7(e, subj)
+    \/ id = "C14-KF8" /\ G8(e, subj)
 KnownDeviation(id, e, subj) ==
     \/ id = "C14-KF1" /\ KF1(e, subj)
     \/ id = "C14-KF2" /\ KF2(e, subj)
@@ -98,4 +162,5 @@ KnownDeviation(id, e, subj) ==
     \/ id = "C14-KF5" /\ KF5(e, subj)
     \/ id = "C14-KF6" /\ KF6(e, subj)
     \/ id = "C14-KF7" /\ KF7(e, subj)
+    \/ id = "C14-KF8" /\ KF8(e, subj)
 =============================================================================
